@@ -126,6 +126,12 @@ class C18:
                              "arch": rng.choice(["amd64", "arm64"]), "url": list(url.encode()),
                              "digest": [rng.randrange(256) for _ in range(32)],
                              "meta": None if meta is None else list(meta.encode())})
+                # one download listed for several platforms / versions: same url and digest, next to each other
+                if rng.random() < 0.3:
+                    twin = dict(arts[-1], os=rng.choice(["linux", "darwin"]), arch=rng.choice(["amd64", "arm64"]))
+                    if rng.random() < 0.5:
+                        twin["ver"] = [rng.randint(0, 30), rng.randint(0, 30)]
+                    arts.append(twin)
             cases.append({"kind": "toml", "arts": arts})
         return cases
 
